@@ -8,6 +8,10 @@ CLAIMED = {
             "decided per admissible interval by z3 (NRA, Ackermannised log) on the terms produced by "
             "symbolically executing fit/evaluate on a matrix of real variables",
             "4.C01"),
+    "C02": ("PELT with a table cost of free real variables (any user cost satisfying the split inequality) and a "
+            "symbolic penalty scale: per path z3 (LRA) decides that every prefix score is the minimum over all "
+            "admissible segmentations and that the final score is the cost of the returned changepoints",
+            "4.C02"),
 }
 PENDING = {}
 TITLES = {}
